@@ -255,3 +255,43 @@ def run(ctx, rep):
     rep.floor("R15d", n, 4 + 16 + 9 + 4, "enum order table cells")
     k = matching(fx, rep)
     rep.floor("R15e", k, 4, "match / incompatible bookkeeping calls")
+    # R15f: partition pattern translation keeps the order of the pattern: every direct write to the output
+    # regex is preceded, since the last such write, by a flush of the pending literal characters
+    f = fx.fn(free="fnmatch_to_regex")
+    ff = FnCtx(f)
+    m = ff.mir
+    outs = []
+    for bb, t in ff.calls("String::push_str", "String::push"):
+        # receiver is the local variable `out` (chase the `&mut out` temporary)
+        op = t.args[0]
+        name = None
+        for _ in range(4):
+            if op.place is None:
+                break
+            name = m.name_of(op.place.local)
+            if name:
+                break
+            ds = m.whole_defs(op.place.local)
+            if len(ds) == 1 and ds[0][0] == "s" and ds[0][3].rv.kind in ("ref", "use"):
+                rv = ds[0][3].rv
+                from vplib.facts import Operand
+                nxt = rv.place.local if rv.kind == "ref" else (rv.ops[0].place.local if rv.ops[0].place else None)
+                if nxt is None:
+                    break
+                name = m.name_of(nxt)
+                break
+            break
+        if name == "out":
+            outs.append((bb, t))
+    flushes = [bb for bb, t in ff.calls("flush_literal")]
+    rep.floor("R15f", len(outs), 5, "direct writes to the output regex in fnmatch_to_regex")
+    ob = [bb for bb, _ in outs]
+    for bb, t in outs:
+        # start from any other output write (or the function entry): reaching this write requires a flush
+        starts = [0] + [x for x in ob if x != bb]
+        bad = [s for s in starts if bb in m.reachable(m.blocks[s].term.target if s != 0 and m.blocks[s].term.target is not None else s,
+                                                      removed_blocks=flushes + [x for x in ob if x != bb])]
+        # the very first write (`^` is the initial value, not a push) and writes right after a flush are fine
+        rep.add("R15f", f.sname, "output regex is written only after the pending literal was flushed", not bad,
+                "a wildcard is emitted while literal characters collected before it are still pending: `A?C` becomes `^.AC$` "
+                "(literal and wildcard swap places)", f.loc(t.line))
